@@ -35,6 +35,14 @@ def concrete_plan(p, k):
     plan = {"fam": p["fam"], "closer": p["closer"], "klass": p,
             "cs": {"n": n_cs, "wchunks": wch(n_cs), "rchunks": rch(n_cs)},
             "sc": {"n": n_sc, "wchunks": wch(n_sc), "rchunks": rch(n_sc)}}
+    # which Write / Read entry point of the stream types carries the payload (io::Write::write | write_all |
+    # write_fmt, + flush after every payload; io::Read::read | read_exact | read_to_end where the peer closes after it)
+    plan["cs"]["wapi"] = ["write", "write_all", "write_fmt"][k % 3]
+    plan["sc"]["wapi"] = ["write_all", "write_fmt", "write"][k % 3]
+    plan["cs"]["rapi"] = ["read", "read_exact"][(k // 3) % 2]
+    plan["sc"]["rapi"] = ["read_exact", "read"][(k // 3) % 2]
+    if n_sc == 0 and p["closer"] == "c" and k % 2 == 0:
+        plan["cs"]["rapi"] = "read_to_end"
     if p["delay"] == "reader":
         plan["cs"]["reader_delay_ms"] = 20
         plan["sc"]["reader_delay_ms"] = 5
@@ -516,6 +524,16 @@ def run(tier):
         if k in acc and (waited or plans[k]["cs"]["n"] >= 4096):
             nontrivial.add(("conn", k))
     chk.evaluations += nev
+    apis = {}
+    for k, cc in enumerate(conns):
+        if cc:
+            for side in ("c", "s"):
+                for e in cc[side]:
+                    if e.get("op") in ("write", "read", "flush") and e.get("res") in ("ok", "eof"):
+                        key = "%s/%s" % (plans[k]["fam"], e.get("api") or (e["op"] if e["op"] == "flush" else
+                                         plans[k]["cs" if (side == "s") == (e["op"] == "read") else "sc"].get("rapi" if e["op"] == "read" else "wapi", e["op"])))
+                        apis[key] = apis.get(key, 0) + 1
+    chk.extra["stream_entry_points_exercised"] = dict(sorted(apis.items()))
     probes = {}
     for k, cc in enumerate(conns):
         if cc:
